@@ -510,12 +510,26 @@ class Func:
             if c["bad"] or len(c["defs"]) != 1 or c["moves"] == 0:
                 continue
             d0 = sk(c["defs"][0])
-            off0 = 0
-            if d0.get("k") == "Bin" and d0["op"] == "+" and cval(sk(d0["a"][1])) is not None:
-                off0 = cval(sk(d0["a"][1]))
+            off0 = {"k": "Int", "v": 0, "t": IDX_T, "n": nid()}
+            # BASE, BASE + e, BASE + e - k (e without side effects; evaluated where the pointer was assigned)
+            terms = []
+            while d0.get("k") == "Bin" and d0["op"] in ("+", "-") and (sk(d0["a"][0]).get("t") or {}).get("k") in ("ptr", "array"):
+                terms.append((d0["op"], d0["a"][1]))
                 d0 = sk(d0["a"][0])
             if d0.get("k") != "Ref" or d0["ref"].get("rk") not in ("global", "param"):
                 continue
+            okterms = True
+            for op_, e_ in terms:
+                for y in walk(e_):
+                    if y.get("k") == "Call" and y.get("fn") not in self.SAFE_CALLS:
+                        okterms = False
+                    if (y.get("k") == "Bin" and y["op"] in ASSIGN_OPS) or (y.get("k") == "Un" and y["op"] in ("post++", "post--", "pre++", "pre--")):
+                        okterms = False
+            if not okterms:
+                continue
+            for op_, e_ in reversed(terms):
+                off0 = {"k": "Bin", "op": op_, "t": IDX_T, "l": None, "n": nid(), "a": [off0, {"k": "ICast", "t": IDX_T, "a": [e_], "n": nid()}]} \
+                    if not (off0.get("k") == "Int" and off0["v"] == 0 and op_ == "+") else {"k": "ICast", "t": IDX_T, "a": [e_], "n": nid()}
             bt = d0.get("t") or {}
             if bt.get("k") not in ("ptr", "array"):
                 continue
@@ -541,18 +555,25 @@ class Func:
             def elem(loc, extra=None):
                 ix = idx(loc)
                 if extra is not None:
-                    ix = {"k": "Bin", "op": "+", "t": IDX_T, "l": loc, "n": nid(), "a": [ix, extra]}
+                    ev_ = cval(sk(extra))
+                    if ev_ is not None and ev_ < 0:
+                        ix = {"k": "Bin", "op": "-", "t": IDX_T, "l": loc, "n": nid(), "a": [ix, {"k": "Int", "v": -ev_, "t": IDX_T, "n": nid()}]}
+                    else:
+                        ix = {"k": "Bin", "op": "+", "t": IDX_T, "l": loc, "n": nid(), "a": [ix, extra]}
                 return {"k": "Sub", "t": et, "l": loc, "n": nid(), "a": [basenode(loc), ix]}
 
             def is_p(e):
                 e = sk(e)
                 return e is not None and e.get("k") == "Ref" and e["ref"].get("id") == pid
 
-            def base_plus(e):
+            def base_plus(e, depth=0):
                 """N when e is BASE + N (N an expression), 0-node when e is BASE itself, else None."""
                 e = sk(e)
                 if e is None:
                     return None
+                if e.get("k") == "Ref" and e["ref"].get("rk") == "local" and depth == 0 and e["ref"]["id"] in cand and \
+                        len(cand[e["ref"]["id"]]["defs"]) == 1 and cand[e["ref"]["id"]]["moves"] == 0 and not cand[e["ref"]["id"]]["bad"]:
+                    return base_plus(cand[e["ref"]["id"]]["defs"][0], 1)      # `end = BASE + N`, never moved
                 if e.get("k") == "Ref" and e["ref"].get("id") == d0["ref"]["id"]:
                     return {"k": "Int", "v": 0, "t": IDX_T, "n": nid()}
                 if e.get("k") == "Bin" and e["op"] == "+":
@@ -583,8 +604,7 @@ class Func:
                     m["decls"] = nd
                     return m
                 if k == "Bin" and n["op"] == "=" and is_p(n["a"][0]):
-                    return {"k": "Bin", "op": "=", "t": IDX_T, "l": loc, "n": n.get("n"),
-                            "a": [idx(loc), {"k": "Int", "v": off0, "t": IDX_T, "n": nid()}]}
+                    return {"k": "Bin", "op": "=", "t": IDX_T, "l": loc, "n": n.get("n"), "a": [idx(loc), off0]}
                 if k == "Bin" and n["op"] in ("+=", "-=") and is_p(n["a"][0]):
                     return {"k": "Bin", "op": n["op"], "t": IDX_T, "ct": IDX_T, "l": loc, "n": n.get("n"), "a": [idx(loc), rw(n["a"][1])]}
                 if k == "Un" and n["op"] in ("post++", "post--", "pre++", "pre--") and is_p(n["a"][0]):
@@ -619,7 +639,14 @@ class Func:
                     return {"k": "Un", "op": "&", "t": c["t"], "l": loc, "n": n.get("n", nid()), "a": [elem(loc)]}
                 return {kk: (rw(v) if kk in ("a", "init", "cond", "callee") else v) for kk, v in n.items()}
             for b in self.blocks.values():
-                b.elems = [rw(e) for e in b.elems]
+                ne = []
+                for e in b.elems:
+                    ne.append(rw(e))
+                    x0 = sk(e)
+                    if x0.get("k") == "Decl" and any(d["ref"]["id"] == pid and d.get("init") is not None for d in x0["decls"]):
+                        # `T *p = BASE + e;` as a declaration: the counter is set right behind it
+                        ne.append({"k": "Bin", "op": "=", "t": IDX_T, "l": x0.get("l"), "n": nid(), "a": [idx(x0.get("l")), off0]})
+                b.elems = ne
                 if b.term and b.term.get("cond") is not None:
                     b.term["cond"] = rw(b.term["cond"])
             self.aliases[c["name"]] = "&%s[%s]" % (bname, iname)
